@@ -602,6 +602,22 @@ class JSONPathEnvironment:
         if isinstance(left, bool):
             return isinstance(right, bool) and left == right
 
+        # And the same goes for booleans nested in arrays and objects.
+        if isinstance(left, Mapping) and isinstance(right, Mapping):
+            return len(left) == len(right) and all(
+                k in right and self._eq(v, right[k]) for k, v in left.items()
+            )
+
+        if (
+            isinstance(left, Sequence)
+            and isinstance(right, Sequence)
+            and not isinstance(left, str)
+            and not isinstance(right, str)
+        ):
+            return len(left) == len(right) and all(
+                self._eq(a, b) for a, b in zip(left, right)
+            )
+
         return left == right
 
     def _lt(self, left: object, right: object) -> bool:
